@@ -41,7 +41,8 @@ fn mk_tournament(k: usize, ctor: u8) -> Tournament {
 /// explore one (population, k); returns (leaves, violation)
 fn tournament_case(c: &Case) -> (u64, u64, Option<(String, String)>, usize) {
     let n = c.values.len();
-    let rows: Vec<Vec<i64>> = c.values.iter().map(|v| if c.two_case { vec![10 - v, 2 * v - 10] } else { vec![*v] }).collect();
+    // (two_case: odd positions carry three results of the same total: individuals need not have equally many)
+    let rows: Vec<Vec<i64>> = c.values.iter().enumerate().map(|(i, v)| if !c.two_case { vec![*v] } else if i % 2 == 0 { vec![10 - v, 2 * v - 10] } else { vec![v - 3, 1, 2] }).collect();
     let pop = mk_pop_matrix(&rows);
     let pop_e = mk_pop_matrix_err(&rows);
     let errors = c.errors;
@@ -190,13 +191,13 @@ pub fn run(run: &mut Run) {
                     (o, env.draws())
                 }),
                 ("best(two cases)", mx, {
-                    let p2 = mk_pop_matrix(&values.iter().map(|v| vec![10 - v, 2 * v - 10]).collect::<Vec<_>>());
+                    let p2 = mk_pop_matrix(&values.iter().enumerate().map(|(i, v)| if i % 2 == 0 { vec![10 - v, 2 * v - 10] } else { vec![v - 3, 1, 2] }).collect::<Vec<_>>());
                     let mut env = mcx::Env::new(vec![]);
                     let o = observe_select(&Best, &p2, &p2, &mut env, Alphabet::Grid(2));
                     (o, env.draws())
                 }),
                 ("worst(two cases)", mn, {
-                    let p2 = mk_pop_matrix(&values.iter().map(|v| vec![10 - v, 2 * v - 10]).collect::<Vec<_>>());
+                    let p2 = mk_pop_matrix(&values.iter().enumerate().map(|(i, v)| if i % 2 == 1 { vec![10 - v, 2 * v - 10] } else { vec![v - 3, 1, 2] }).collect::<Vec<_>>());
                     let mut env = mcx::Env::new(vec![]);
                     let o = observe_select(&Worst, &p2, &p2, &mut env, Alphabet::Grid(2));
                     (o, env.draws())
@@ -320,7 +321,7 @@ pub fn run(run: &mut Run) {
     run.transitions += bw;
     run.traces_validated = run.evaluations;
     run.distinct_nontrivial = nontrivial;
-    run.rule = "every population of size 1..n over 3 values (ties included) x every tournament size (Tournament::new; for n <= 4 also of_size::<K>(), binary(), individuals whose results are errors, lower is better, and individuals with two per-case results whose lexicographic order is the reverse of the order of their totals); Best/Worst likewise on scores and on errors; all grid word sequences explored on the real Tournament::select; the accumulated winner-value law is compared, as exact rationals, with [C(#<=v,k)-C(#<v,k)]/C(n,k); plus large populations (big.population_sizes, 10 structured populations): Best/Worst extremal, tournament sizes {1,2,3,7,11,12,16,17,31..33,64,65,162..164,n/65,n/64,n/3,n/2,n-2,n-1,n,n+1} with the every-stream consequences 'the winner is at least as good as k-1 other members' and 'at least k distinct individuals were compared' (individuals whose comparisons are recorded) on all streams of big.streams and the exact uniform law of the size-1 tournament; non-trivial = (population, k) scenarios whose law has more than one outcome".into();
+    run.rule = "every population of size 1..n over 3 values (ties included) x every tournament size (Tournament::new; for n <= 4 also of_size::<K>(), binary(), individuals whose results are errors, lower is better, and individuals with two or three per-case results - not equally many - whose lexicographic order is the reverse of the order of their totals); Best/Worst likewise on scores and on errors; all grid word sequences explored on the real Tournament::select; the accumulated winner-value law is compared, as exact rationals, with [C(#<=v,k)-C(#<v,k)]/C(n,k); plus large populations (big.population_sizes, 10 structured populations): Best/Worst extremal, tournament sizes {1,2,3,7,11,12,16,17,31..33,64,65,162..164,n/65,n/64,n/3,n/2,n-2,n-1,n,n+1} with the every-stream consequences 'the winner is at least as good as k-1 other members' and 'at least k distinct individuals were compared' (individuals whose comparisons are recorded) on all streams of big.streams and the exact uniform law of the size-1 tournament; non-trivial = (population, k) scenarios whose law has more than one outcome".into();
     run.bound("max_population", json!(max_n));
     run.bound("tournament_sizes", json!("every k with lcm(1..n)^k executions within the per-case budget (3e5 quick, 2e7 thorough); full population product for n<=4, n=5 k<=3 (thorough n=6 k<=2); all orderings of distinct values for n<=5; a 9-member population family otherwise"));
     run.bound("binary_tournament_law_population_sizes", json!(format!("{}..={max_binary} (9-member population family, grid n(n-1))", max_n + 1)));
